@@ -84,6 +84,9 @@ func (c *FnCtx) doCall(res *ssa.Call, cc *ssa.CallCommon, site ssa.Instruction) 
 		if lastRetKey != "" && len(vs) > 0 && c.watch[lastRetKey] {
 			// ghost: first result of the most recent call to this callee on the current path
 			c.setGhost(lastRetKey, vs[0])
+			for i := 1; i < len(vs); i++ {
+				c.setGhost(fmt.Sprintf("%s#%d", lastRetKey, i), vs[i])
+			}
 		}
 		if res == nil {
 			return
